@@ -36,7 +36,15 @@ DIRECT = ("", "", "")
 FORMATS = ["ips", "sfc"]
 MAPPINGS = ["low", "low2", "high", None]
 HEADERS = [False, True]
-DEFINES = [(), (("FOO", "5"),), (("FOO", "5"), ("BAR", "0x3"))]
+# the last configuration defines BAR in terms of FOO (defines are installed in command-line order)
+DEFINES = [(), (("FOO", "5"),), (("FOO", "5"), ("BAR", "FOO-2"))]
+
+
+def define_values(defines):
+    env = {}
+    for k, v in defines:
+        env[k] = eval(v, {"__builtins__": {}}, dict(env))  # noqa: S307 - my own literals / earlier names only
+    return env
 ROM = {"low": "low_rom", "low2": "low_rom_2", "high": "high_rom", None: "low_rom"}
 BASE = {  # bank a, bank b, mirror of a, ram
     "low": dict(a=0x018000, b=0x028000, m=0x818000, end=0x01FFFE, ram=0x7E2000),
@@ -65,7 +73,13 @@ def programs(mapping, defines):
                    ("call", "mk", [N(0x21)]), ("call", "mk", [N(0x22)]),
                    ("for", "ii", N(0), N(3), [("label", "inloop"), ("data", "db", [S("ii")])]), ("label", "last"), ("data", "dl", [S("last")])],
         "overlap": [("org", N(b["a"])), ("data", "db", [N(1), N(2), N(3), N(4)]), ("org", N(b["a"] + 2)), ("data", "db", [N(0xAA), N(0xBB), N(0xCC)]),
-                    ("org", N(b["a"] + 5)), ("data", "db", [N(0xDD)]), ("org", N(b["end"])), ("label", "x"), ("data", "dl", [S("x")]), ("data", "dw", [N(0x5566)])],
+                    ("org", N(b["a"] + 5)), ("data", "db", [N(0xDD)]),
+                    # a later block at a LOWER address that overlaps earlier ones: write order decides, not address order
+                    ("org", N(b["a"] + 0x44)), ("data", "db", [N(0x61), N(0x62), N(0x63), N(0x64)]),
+                    ("org", N(b["a"] + 0x40)), ("data", "db", [N(0x71), N(0x72), N(0x73), N(0x74), N(0x75), N(0x76)]), ("org", N(b["end"])), ("label", "x"), ("data", "dl", [S("x")]), ("data", "dw", [N(0x5566)])],
+        # labels and bytes before the first *= (position 0 of the initial mapping): front ends must still agree with the in-memory API
+        "no-org-first": [("label", "early"), ("data", "db", [N(0x21), N(0x22)]), ("data", "dl", [S("early")]), ("org", N(b["a"])), ("label", "late"),
+                         ("data", "dl", [S("early"), S("late")])],
         "bigblob": [("org", N(b["a"])), ("label", "big"), ("incbin", "big.bin"), ("label", "afterbig"), ("data", "dl", [S("afterbig")])],
         "files": [("org", N(b["a"] + 0x10)), ("include", "inc.s", [("label", "fromfile"), ("data", "dw", [S("fromfile")])]), ("incbin", "blob.bin"),
                   ("data", "dl", [S("blob_bin"), S("blob_bin__size")])],
@@ -102,7 +116,7 @@ def describe(case, res):
 
 def in_memory(prog, mapping, defines):
     """In-memory API under the same ROM type with the defines prepended as constants."""
-    full = [("const", k, N(int(v, 0), v)) for k, v in defines] + prog
+    full = [("const", k, N(val)) for k, val in define_values(defines).items()] + prog
     files = dict(FILES)
     files.update(render.files_of(full))
     src = render.source(full)
@@ -184,10 +198,15 @@ def run_inproc(i):
     mtag = f"fmt={fmt},map={mapping},defines={'yes' if defines else 'no'}"
     for name, prog in programs(mapping, defines).items():
         mem, v, src = in_memory(prog, mapping, defines)
-        if v.status != "ok":
+        if v.status == "fail":
             viol.append({"key": "frontend:harness-program-not-valid", "msg": f"{name}: reference verdict {v.status} {v.reason}"})
             continue
-        if not mem.accepted or mem.blocks != v.blocks:
+        if v.status == "unspec":
+            # the reference does not define this program (bytes before the first *=): differential comparison only
+            if not mem.accepted:
+                viol.append({"key": f"frontend:in-memory-api-fails:map={mapping}", "msg": f"{name}: {mem.brief()} :: {src!r}"})
+                continue
+        elif not mem.accepted or mem.blocks != v.blocks:
             viol.append({"key": f"frontend:in-memory-api-fails:map={mapping}",
                          "msg": f"{name}: in-memory API under {ROM[mapping]}: {mem.brief()} expected {[(hex(a), b.hex()) for a, b in v.blocks][:3]} :: {src!r}"})
             outcomes.add("IN-MEMORY-FAILS")
@@ -233,7 +252,7 @@ def run_inproc(i):
                         got.append((m.group(3), (int(m.group(1), 16) << 16) | int(m.group(2), 16)))
                     # expected from the REFERENCE assembler's label list (one entry per definition outside loops),
                     # not from get_all_labels(), which the symbol file is itself built from
-                    exp = [(n, val & 0xFFFFFF) for n, val in v.labels]
+                    exp = [(n, val & 0xFFFFFF) for n, val in (v.labels if v.status == "ok" else mem.labels)]
                     if lines[:1] != ["[labels]"] or sorted(got) != sorted(exp):
                         viol.append({"key": "frontend:symbol-file-differs", "msg": f"{name}: symbol file {sorted(got)} expected {sorted(exp)}"})
                         outcomes.add("SYMFILE-DIFFERS")
@@ -279,7 +298,7 @@ def run_subproc(i, pick, tier="quick"):
     for name in sorted(chosen):
         prog = progs[name]
         mem, v, src = in_memory(prog, mapping, defines)
-        if v.status != "ok" or not mem.accepted or mem.blocks != v.blocks:
+        if v.status == "fail" or not mem.accepted or (v.status == "ok" and mem.blocks != v.blocks):
             viol.append({"key": f"frontend:in-memory-api-fails:map={mapping}", "msg": f"{name}: {mem.brief()} / reference {v.status}"})
             continue
         files = dict(FILES)
